@@ -5,11 +5,11 @@ from ..world import World, random_spec, world_from
 from . import resolve_common as R
 
 CLAIM = dict(
-    text="Coq theorems (static fragment, any class DAG, any method list): for every call the documented rule decides -- it names a winner, or no method is applicable -- every permutation of the method list (which in the model is every registration order and every iteration order of the internal sets) returns that same outcome (C06_order_free_when_decided, C06_nomethod_order_free), and adding methods that are not applicable to the call does not change it (C06_irrelevant_when_decided); corollaries of C02's theorems. The full statement is false of the faithful model: C06_irrelevant_refuted (KF-01: a 2-argument method changes a 1-argument call), C06_order_refuted_union (KF-06: f(x: A|B) / f(x: B|A) -- whichever type is visited first wins), C06_order_refuted_cycle (KF-23: CycleError in one order, a method in another). Tie to /repo: with the guarded hook each program is run under several imposed registration/iteration orders and the model is run with the same orders (exact agreement required, also where the outcome is order-dependent); with the hook off the same program runs in fresh interpreters under different PYTHONHASHSEEDs and address layouts; each program is also extended with non-applicable methods. Outcomes that differ between orders / seeds / extensions must fall in the known classes (a hook-vs-hook pair among the registered types of a slot; a call outside chain_applicable).",
+    text="Coq theorems (static fragment, any class DAG, any method list): for every call the documented rule decides -- it names a winner, or no method is applicable -- every permutation of the method list (which in the model is every registration order and every iteration order of the internal sets) returns that same outcome (C06_order_free_when_decided, C06_nomethod_order_free), and adding methods that are not applicable to the call does not change it (C06_irrelevant_when_decided); for every call whose classes fall under pairwise comparable registered types at each position (every call under single inheritance), decided or ambiguous, the verdict is the same under every permutation and unchanged by non-applicable methods (C06_order_free_on_chains, C06_irrelevant_on_chains); corollaries of C02's theorems. The full statement is false of the faithful model: C06_irrelevant_refuted (KF-01: a 2-argument method changes a 1-argument call), C06_order_refuted_union (KF-06: f(x: A|B) / f(x: B|A) -- whichever type is visited first wins), C06_order_refuted_cycle (KF-23: CycleError in one order, a method in another). Tie to /repo: with the guarded hook each program is run under several imposed registration/iteration orders and the model is run with the same orders (exact agreement required, also where the outcome is order-dependent); with the hook off the same program runs in fresh interpreters under different PYTHONHASHSEEDs and address layouts; each program is also extended with non-applicable methods. Outcomes that differ between orders / seeds / extensions must fall in the known classes (a hook-vs-hook pair among the registered types of a slot; a call outside chain_applicable).",
     note="Trusted: as C02, plus the guarded reordering hook in mro.sort_types / MultiTypeMap.mro (OVLD_VERIF). Partial: calls the rule leaves ambiguous are covered by the correspondence only (the model is order-free there on static types, but that is not proved).",
     technique="Coq proof (corollaries of the C02 theorems under Permutation) + differential correspondence under imposed iteration orders, hash seeds and irrelevant methods", design="6 C06")
 
-THEOREMS = ["C06_leaf_tied", "C06_order_free_when_decided", "C06_nomethod_order_free", "C06_irrelevant_when_decided",
+THEOREMS = ["C06_leaf_tied", "C06_order_free_when_decided", "C06_nomethod_order_free", "C06_irrelevant_when_decided", "C06_order_free_on_chains", "C06_irrelevant_on_chains",
             "C06_order_refuted_union", "C06_order_refuted_cycle", "C06_irrelevant_refuted"]
 ASSUMPTIONS = ["hash-seed runs use fresh subprocesses with PYTHONHASHSEED in a small set and a varying number of junk classes allocated first"]
 
